@@ -948,6 +948,18 @@ func runC10(c *Ctx) {
 				json.Unmarshal(b, &cs)
 			}
 		}
+		{
+			var w struct{ Input c05NthCase }
+			var n c05NthCase
+			if json.Unmarshal(b, &w) == nil && w.Input.Kind == "nthseq" {
+				c05NthRun(c, &w.Input)
+				return
+			}
+			if json.Unmarshal(b, &n) == nil && n.Kind == "nthseq" {
+				c05NthRun(c, &n)
+				return
+			}
+		}
 		c10Check(c, cs)
 		return
 	}
@@ -1086,6 +1098,9 @@ func runC10(c *Ctx) {
 		}
 		c10Check(c, cs)
 	}
+	// the --nth fields searched must follow change-nth / transform-nth on items that were tokenised before
+	// (same stream as C05's nth-history: seeded change C10-5)
+	c05NthStream(c)
 }
 
 func init() { runners["C10"] = runC10 }
